@@ -474,6 +474,90 @@ class KwCalls(ast.NodeTransformer):
         return ast.copy_location(ast.Call(func=node.func, args=[], keywords=new_kw + node.keywords), node)
 
 
+_ALLPARAMS = None
+
+
+def _all_param_names():
+    """name -> set of parameter names over every definition of that name in the package (methods and functions); dunder
+    methods are left out (their keywords are part of the class / protocol interface)"""
+    global _ALLPARAMS
+    if _ALLPARAMS is None:
+        tab = {}
+        for path, src_ in _package_sources():
+            for n in ast.walk(ast.parse(src_)):
+                if isinstance(n, (ast.FunctionDef, ast.AsyncFunctionDef)) and not n.name.startswith("__"):
+                    a = n.args
+                    tab.setdefault(n.name, set()).update(x.arg for x in a.posonlyargs + a.args + a.kwonlyargs
+                                                         if x.arg not in ("self", "cls"))
+        _ALLPARAMS = tab
+    return _ALLPARAMS
+
+
+class ParamRename(ast.NodeTransformer):
+    """every parameter of every function / method / lambda of the package gets the suffix `_q`, in its definition, in the
+    body (closures included) and at every keyword call site of a package function: a consistent package-wide rename of
+    the API's parameter names.  `self` / `cls`, dunder methods and the names jit is told about by `static_argnames`
+    keep their names."""
+    SUF = "_q"
+
+    def __init__(self):
+        self.stack = []
+
+    def _params(self, a):
+        return {x.arg for x in a.posonlyargs + a.args + a.kwonlyargs if x.arg not in ("self", "cls")} | \
+            ({a.vararg.arg} if a.vararg else set()) | ({a.kwarg.arg} if a.kwarg else set())
+
+    def _visit_fn(self, node, dunder=False):
+        ps = set() if dunder else self._params(node.args)
+        static = set()
+        for d in getattr(node, "decorator_list", []):
+            for kw in getattr(d, "keywords", []) if isinstance(d, ast.Call) else []:
+                if kw.arg == "static_argnames":
+                    static |= {c.value for c in ast.walk(kw.value) if isinstance(c, ast.Constant) and isinstance(c.value, str)}
+        ps -= static
+        # defaults and decorators are evaluated in the enclosing scope
+        node.args.defaults = [self.visit(d) for d in node.args.defaults]
+        node.args.kw_defaults = [self.visit(d) if d is not None else None for d in node.args.kw_defaults]
+        if hasattr(node, "decorator_list"):
+            node.decorator_list = [self.visit(d) for d in node.decorator_list]
+        self.stack.append(ps)
+        for x in node.args.posonlyargs + node.args.args + node.args.kwonlyargs + \
+                ([node.args.vararg] if node.args.vararg else []) + ([node.args.kwarg] if node.args.kwarg else []):
+            if x.arg in ps:
+                x.arg = x.arg + self.SUF
+        if isinstance(node, ast.Lambda):
+            node.body = self.visit(node.body)
+        else:
+            node.body = [self.visit(st) for st in node.body]
+        self.stack.pop()
+        return node
+
+    def visit_FunctionDef(self, node):
+        return self._visit_fn(node, dunder=node.name.startswith("__"))
+
+    def visit_Lambda(self, node):
+        return self._visit_fn(node)
+
+    def visit_Name(self, node):
+        if any(node.id in ps for ps in self.stack):
+            return ast.copy_location(ast.Name(id=node.id + self.SUF, ctx=node.ctx), node)
+        return node
+
+    def visit_Call(self, node):
+        self.generic_visit(node)
+        target = node.func
+        if isinstance(target, (ast.Name, ast.Attribute)) and _ref_name(target) in ("partial",) and node.args:
+            target = node.args[0]
+        nm = _ref_name(target) if isinstance(target, (ast.Name, ast.Attribute)) else None
+        ps = _all_param_names().get(nm) if nm else None
+        if ps and not (isinstance(target, ast.Attribute) and isinstance(target.value, ast.Name) and target.value.id in (
+                "np", "jnp", "jax", "lax", "random", "scipy", "math", "comm", "MPI", "h5py", "jsp", "pickle", "os", "time")):
+            for k in node.keywords:
+                if k.arg in ps:
+                    k.arg = k.arg + self.SUF
+        return node
+
+
 _REORDER = None
 
 
@@ -572,7 +656,8 @@ class ReorderParams(ast.NodeTransformer):
 def transform_module(src: str, kind: str) -> str:
     tree = ast.parse(src)
     tr = {"reorder": ReorderParams, "kwcalls": KwCalls, "commute": CommuteConst, "augassign": AugToAssign, "rettemp": ReturnTemp, "threeaddr": ThreeAddress,
-          "swapbranches": SwapBranches, "guardclause": GuardClauses, "comp2loop": CompToLoop, "delegate": Delegate}[kind]()
+          "swapbranches": SwapBranches, "guardclause": GuardClauses, "comp2loop": CompToLoop, "delegate": Delegate,
+          "paramrename": ParamRename}[kind]()
     tree = tr.visit(tree)
     ast.fix_missing_locations(tree)
     return ast.unparse(tree) + "\n"
@@ -587,7 +672,7 @@ def overlays(kind: str):
             new = ast.unparse(ast.parse(src)) + "\n"
         elif kind == "rename":
             new = rename_module(src)
-        elif kind in ("commute", "augassign", "rettemp", "threeaddr", "swapbranches", "guardclause", "comp2loop", "delegate", "kwcalls", "reorder"):
+        elif kind in ("commute", "augassign", "rettemp", "threeaddr", "swapbranches", "guardclause", "comp2loop", "delegate", "kwcalls", "reorder", "paramrename"):
             new = transform_module(src, kind)
         else:
             new = rename_module(src)
@@ -689,11 +774,11 @@ def mutants_under(kinds, pids):
 def main():
     if "--mutants" in sys.argv:
         sys.argv.remove("--mutants")
-        ALL_ = ("reformat", "rename", "commute", "augassign", "rettemp", "threeaddr", "swapbranches", "guardclause", "comp2loop", "delegate", "kwcalls", "reorder")
+        ALL_ = ("reformat", "rename", "commute", "augassign", "rettemp", "threeaddr", "swapbranches", "guardclause", "comp2loop", "delegate", "kwcalls", "reorder", "paramrename")
         kinds = [a for a in sys.argv[1:] if a in ALL_] or list(ALL_)
         pids = [a.upper() for a in sys.argv[1:] if a.upper().startswith("C") and a[1:].isdigit()] or [f"C{i:02d}" for i in range(1, 21)]
         return mutants_under(kinds, pids)
-    ALL = ("reformat", "rename", "commute", "augassign", "rettemp", "threeaddr", "swapbranches", "guardclause", "comp2loop", "delegate", "kwcalls", "reorder")
+    ALL = ("reformat", "rename", "commute", "augassign", "rettemp", "threeaddr", "swapbranches", "guardclause", "comp2loop", "delegate", "kwcalls", "reorder", "paramrename")
     kinds = [a for a in sys.argv[1:] if a in ALL] or list(ALL)
     pids = [a for a in sys.argv[1:] if a.upper().startswith("C") and a[1:].isdigit()] or [f"C{i:02d}" for i in range(1, 21)]
     rc = 0
